@@ -808,6 +808,10 @@ func parseSPS3dExtension(r *bits.EBSPReader) *SPS3dExtension {
 	return ext
 }
 
+// maxPalettePredictorInitializers is a conservative upper bound for the number of palette predictor initializers.
+// The standard limits it to PaletteMaxPredictorSize (palette_max_size + delta_palette_max_predictor_size <= 64 + 128).
+const maxPalettePredictorInitializers = 4096
+
 func parseSPSSccExtension(r *bits.EBSPReader, ChromaFormatIDC,
 	BitDepthLumaMinus8, BitDepthChromaMinus8 byte) *SPSSccExtension {
 	ext := &SPSSccExtension{}
@@ -819,19 +823,24 @@ func parseSPSSccExtension(r *bits.EBSPReader, ChromaFormatIDC,
 		ext.PalettePredictorInitializersPresentFlag = r.ReadFlag()
 		if ext.PalettePredictorInitializersPresentFlag {
 			ext.NumPalettePredictorInitializersMinus1 = r.ReadExpGolomb()
+			if ext.NumPalettePredictorInitializersMinus1 >= maxPalettePredictorInitializers {
+				r.SetError(fmt.Errorf("sps_num_palette_predictor_initializers_minus1 %d >= %d",
+					ext.NumPalettePredictorInitializersMinus1, maxPalettePredictorInitializers))
+				return ext
+			}
 			numComps := 3
 			if ChromaFormatIDC == 0 {
 				numComps = 1
 			}
 			ext.PalettePredictorInitializer = make([][]uint, numComps)
 			// Fill luma
-			for i := uint(0); i <= ext.NumPalettePredictorInitializersMinus1; i++ {
+			for i := uint(0); i <= ext.NumPalettePredictorInitializersMinus1 && r.AccError() == nil; i++ {
 				ext.PalettePredictorInitializer[0] =
 					append(ext.PalettePredictorInitializer[0], r.Read(int(BitDepthLumaMinus8+8)))
 			}
 			// Fill chroma if any
 			for comp := 1; comp < numComps; comp++ {
-				for i := uint(0); i <= ext.NumPalettePredictorInitializersMinus1; i++ {
+				for i := uint(0); i <= ext.NumPalettePredictorInitializersMinus1 && r.AccError() == nil; i++ {
 					ext.PalettePredictorInitializer[comp] =
 						append(ext.PalettePredictorInitializer[comp], r.Read(int(BitDepthChromaMinus8+8)))
 				}
